@@ -25,6 +25,7 @@ import (
 	"github.com/rpcpool/yellowstone-faithful/blocktimeindex"
 	"github.com/rpcpool/yellowstone-faithful/bucketteer"
 	"github.com/rpcpool/yellowstone-faithful/carreader"
+	"github.com/rpcpool/yellowstone-faithful/compactindexsized"
 	deprecatedbucketter "github.com/rpcpool/yellowstone-faithful/deprecated/bucketteer"
 	"github.com/rpcpool/yellowstone-faithful/gsfa"
 	hugecache "github.com/rpcpool/yellowstone-faithful/huge-cache"
@@ -888,6 +889,11 @@ func (ser *Epoch) GetBlock(ctx context.Context, slot uint64) (*ipldbindcode.Bloc
 	if err != nil {
 		return nil, cid.Cid{}, fmt.Errorf("failed to decode block with CID %s: %w", wantedCid, err)
 	}
+	// The slot-to-cid index only stores a truncated hash of the key, so a slot
+	// that is not in the index can resolve to the CID of another slot's block.
+	if uint64(decoded.Slot) != slot {
+		return nil, cid.Cid{}, fmt.Errorf("block with CID %s is for slot %d, not slot %d: %w", wantedCid, decoded.Slot, slot, compactindexsized.ErrNotFound)
+	}
 	return decoded, wantedCid, nil
 }
 
@@ -965,6 +971,15 @@ func (ser *Epoch) GetTransaction(ctx context.Context, sig solana.Signature) (*ip
 	decoded, err := iplddecoders.DecodeTransaction(data)
 	if err != nil {
 		return nil, cid.Cid{}, fmt.Errorf("failed to decode transaction with CID %s: %w", wantedCid, err)
+	}
+	// The sig-to-cid index only stores a truncated hash of the key, so a signature
+	// that is not in the index can resolve to the CID of another transaction.
+	gotSig, err := decoded.Signature()
+	if err != nil {
+		return nil, cid.Cid{}, fmt.Errorf("failed to read signature of transaction with CID %s: %w", wantedCid, err)
+	}
+	if !gotSig.Equals(sig) {
+		return nil, cid.Cid{}, fmt.Errorf("transaction with CID %s has signature %s, not %s: %w", wantedCid, gotSig, sig, compactindexsized.ErrNotFound)
 	}
 	return decoded, wantedCid, nil
 }
